@@ -221,7 +221,7 @@ def check_base(name, values, ctx):
         if n >= 0 and ref.isdigit() and len(ref) <= 10:
             import numpy as np
             for form, v in (('int', int(ref)), ('float', float(ref)),
-                            ('numpy', np.float64(ref))):
+                            ('numpy', np.float64(ref)), ('numpy-int', np.int64(ref))):
                 b3 = xl.canon(xl.scalar(x2d(v)))
                 ctx.count('cmp.%s2DEC.numeric-numeral' % name)
                 if b3 != xl.c_num(n):
